@@ -509,3 +509,36 @@ def r_chase_calls(cx):
                   "its first argument is not the invocation's globals" if not ok_g else
                   "its second argument is not the tokenized step"), cx.where(t["span"]))
     cx.count("R-CHASE-CALLS", "chase_calls", n)
+
+
+# ---------------------------------------------------------------------------------------------------------------------
+# R-MODIFIER-ROTATE (C03, C16): every leading modifier is moved behind the operator name
+
+@rule("R-MODIFIER-ROTATE", ["C03", "C16"])
+def r_modifier_rotate(cx):
+    """split_into_parameters moves the desugared prefix modifiers (inv, omit_fwd, omit_inv) behind the operator name
+    by rotating the element list while its first element is a modifier. Since a step may carry several prefix
+    modifiers (`a < inv b` desugars to `omit_fwd inv b`), the rotation sits in a loop whose continuation tests the
+    (new) first element: a single conditional rotation leaves the second modifier in the name position."""
+    name = "<T as token::Tokenize>::split_into_parameters"
+    f = cx.f.fn(name)
+    rots = [bb for bb, t in f.calls() if (f.callee(t) or "").endswith("::rotate_left")]
+    n = len(rots)
+    for k, bb in enumerate(rots):
+        lp = f.innermost_loop(bb)
+        ok = lp is not None
+        tested = False
+        if lp is not None:
+            for b2, t2 in f.calls():
+                if b2 in lp.body and (f.callee(t2) or "").endswith("::contains"):
+                    tested = True
+        cx.ob("R-MODIFIER-ROTATE", "split_into_parameters/rotate%d" % k, ok and tested,
+              "the rotation of leading modifiers is repeated while the first element is a modifier" if ok and tested else
+              "split_into_parameters rotates a leading modifier away only once (the rotation is not in a loop that "
+              "re-tests the first element): with two prefix modifiers the second one is taken for the operator name",
+              cx.where(f.term(bb)["span"]))
+    if n == 0:
+        cx.ob("R-MODIFIER-ROTATE", "split_into_parameters/rotate0", False,
+              "anchor-missing: no rotate_left in split_into_parameters (the handling of prefix modifiers changed shape)",
+              cx.where(f.d["span"]))
+    cx.count("R-MODIFIER-ROTATE", "rotations", n)
